@@ -247,7 +247,8 @@ def program(draw, kinds: Optional[List[str]] = None, max_entities: int = 3, max_
     deleted: List[Tuple[int, int]] = []
     if allow_delete and len(ops) >= 2 and deletable and draw(st.integers(0, 3)) == 0:
         for _ in range(draw(st.integers(1, 2))):
-            x = draw(st.sampled_from(deletable))
+            round_ops = [x for x in deletable if entities[x[0]]["kind"] == "hemisphere"]
+            x = draw(st.sampled_from(round_ops)) if round_ops and draw(st.booleans()) else draw(st.sampled_from(deletable))
             if x not in deleted and len(deleted) < len(ops) - 1:
                 deleted.append(x)
     for e, ent in enumerate(entities):
